@@ -70,7 +70,10 @@ def scramble(v, depth=0):
     """Mutate a result in depth (to detect aliasing with host data)."""
     if depth > 6:
         return
-    if isinstance(v, list):
+    if isinstance(v, tuple):
+        for x in v:
+            scramble(x, depth + 1)
+    elif isinstance(v, list):
         for x in v:
             scramble(x, depth + 1)
         v.append("SCRAMBLED")
@@ -100,7 +103,11 @@ def engines():
     base = {"yaql.limitIterators": 300, "yaql.memoryQuota": 200000}
     on = yaql.YaqlFactory().create(dict(base))
     off = yaql.YaqlFactory().create(dict(base, **{"yaql.convertInputData": False}))
-    return {"on": on, "off": off}
+    # the less used output options: results may then legitimately contain tuples and sets - but never the host's own
+    # containers
+    off_tuples = yaql.YaqlFactory().create(dict(base, **{"yaql.convertInputData": False, "yaql.convertTuplesToLists": False}))
+    off_setlists = yaql.YaqlFactory().create(dict(base, **{"yaql.convertInputData": False, "yaql.convertSetsToLists": True}))
+    return {"on": on, "off": off, "off_tuples": off_tuples, "off_setlists": off_setlists}
 
 
 def ctx_snapshot(chain):
@@ -308,7 +315,7 @@ def sweep(run, deep):
                         except Exception:
                             pass
                 if what:
-                    run.fail("violation", what, {"expression": text, "convertInputData": mode == "on",
+                    run.fail("violation", what, {"expression": text, "convertInputData": mode == "on", "engine_mode": mode,
                                                  "data_before": repr(before)[:600], "data_after": repr(freeze(data))[:600]})
                     return
     run.note("mutation sweep: %d resolved calls" % ran)
@@ -477,10 +484,56 @@ def handmade(run):
                 return
 
 
+def same_document_histories(run):
+    """ONE engine, ONE context, ONE document object: evaluations interleaved with in-place edits by the host (and documents
+    holding one-shot / non-sequence iterables); each evaluation must equal a fresh engine + context on a deep copy."""
+    import yaql
+    texts = ["$.tasks.len()", "$.tasks.select($.name).toList()", "$.tags.orderBy($)", "$.tags.len()", "$.limit", "$",
+             "$.tasks.where($.done).len()", "$.names.toList()", "$.view.toList().len()"]
+    for mode_opts in ({}, {"yaql.convertInputData": False}):
+        eng = yaql.YaqlFactory().create(dict(mode_opts))
+        ctx = yaql.create_context()
+
+        def make():
+            d = {"x": 1, "y": 2}
+            return {"tasks": [{"name": "a", "done": True}, {"name": "b", "done": False}], "tags": frozenset(["q", "p"]),
+                    "limit": 3, "names": ("n1", "n2"), "view": d.keys()}
+        doc = make()
+        edits = [lambda d: d["tasks"].append({"name": "c", "done": True}), lambda d: d.__setitem__("limit", 4),
+                 lambda d: None, lambda d: d["tasks"][0].__setitem__("done", False), lambda d: None]
+        shadow = make()          # an equal document edited the same way, rebuilt fresh for the reference
+        applied = []
+        for step in range(len(edits) + 1):
+            for text in texts:
+                ref_doc = make()
+                for e in applied:
+                    e(ref_doc)
+                try:
+                    got = freeze(eng(text).evaluate(data=doc, context=ctx.create_child_context()))
+                except Exception as ex:
+                    got = ("exc", type(ex).__name__)
+                try:
+                    want = freeze(yaql.YaqlFactory().create(dict(mode_opts))(text).evaluate(data=ref_doc, context=yaql.create_context()))
+                except Exception as ex:
+                    want = ("exc", type(ex).__name__)
+                run.case(("samedoc", text, step, bool(mode_opts)), nontrivial=step > 0)
+                run.count("same_document_eval")
+                if got != want:
+                    run.fail("violation", "evaluating on the same engine/document object again (after the host edited it in place, or "
+                                          "with iterables inside) differs from a fresh engine on an equal document",
+                             {"expression": text, "options": mode_opts, "edits_applied": step, "observed": repr(got)[:400],
+                              "required": repr(want)[:400]})
+                    return
+            if step < len(edits):
+                edits[step](doc)
+                applied.append(edits[step])
+
+
 def oracle(run, deep):
     sweep(run, deep)
     sequences(run)
     handmade(run)
+    same_document_histories(run)
 
 
 def replay(run, data):
